@@ -1,11 +1,12 @@
 #!/bin/bash
 # copies sub-agent output /tmp/seed/<id>/SEED/{A,B}* into /verif/seeded/<id>-<variant>/
 cd "$(dirname "${BASH_SOURCE[0]}")/.."
-for d in /tmp/seed/C*/SEED; do
+for d in ${SEEDROOT:-/tmp/seed}/C*/SEED; do
   id=$(basename $(dirname $d))
   for v in A B; do
+    o=$v; [ -n "$SEEDSUFFIX" ] && o=$( [ $v = A ] && echo C || echo D )
     [ -f $d/$v.diff ] || continue
-    t=seeded/$id-$v; [ -d $t ] && continue
+    t=seeded/$id-$o; [ -d $t ] && continue
     mkdir -p $t; cp $d/$v.diff $t/patch.diff; cp $d/${v}_demo.py $t/demo.py; cp $d/${v}_meta.json $t/meta.json
     echo imported $t
   done
